@@ -254,6 +254,7 @@ func (j *Judge) Maintain(c *Context, res *drummer.VerifSchedResult, exhausted bo
 	restored := map[uint64]int{}
 	changes := map[uint64]int{}
 	kills := map[dbx.DKill]int{}
+	restoreFor := map[[2]uint64]bool{}
 	for _, r := range res.Requests {
 		sid := r.Change.ShardId
 		v := c.ShardImage.Shards[sid]
@@ -278,6 +279,7 @@ func (j *Judge) Maintain(c *Context, res *drummer.VerifSchedResult, exhausted bo
 			run.Count("c12:restore_request")
 			restored[sid]++
 			rid := r.InstantiateReplicaId
+			restoreFor[[2]uint64{sid, rid}] = true
 			if v == nil || k == nil {
 				j.fail("C12", "restore_target_ok", "restore-unknown-shard", fmt.Sprintf("restore for shard %d which needs no repair", sid))
 				continue
@@ -404,6 +406,37 @@ func (j *Judge) Maintain(c *Context, res *drummer.VerifSchedResult, exhausted bo
 				sig = "restore-below-quorum-with-waiting-member"
 			}
 			j.fail("C12", "restore_quorum", sig, fmt.Sprintf("shard %d: %d healthy + %d restored < quorum %d (waiting %d)", sid, len(k.ok), n, len(v.Replicas)/2+1, len(k.waiting)))
+		}
+	}
+	// progress (theorems every_restorable_member_gets_a_restore / never_silent_on_a_shard_that_needs_work restated on the
+	// implementation): a failed member whose NodeHost is live and lists its log (all records are looked at) gets a restore
+	// request in this round whenever its shard is handled by one of the two restore passes
+	for sid, k := range cls {
+		v := c.ShardImage.Shards[sid]
+		if v == nil || c.Shards[sid] == nil {
+			continue
+		}
+		quorum := (len(k.failed)+len(k.ok)+len(k.waiting))/2 + 1
+		need := !(len(k.ok) >= quorum || len(k.waiting) > 0)
+		restorable := []uint64{}
+		for rid := range k.failed {
+			m := v.Replicas[rid]
+			if m == nil {
+				continue
+			}
+			if h := c.NodeHostImage.Nodehosts[m.Address]; h != nil && c.available(h) && hasLog(h, sid, rid) {
+				restorable = append(restorable, rid)
+			}
+		}
+		if need && len(k.ok)+len(restorable) < quorum {
+			continue // an unavailable shard that cannot reach a majority yet: nothing is restored
+		}
+		for _, rid := range restorable {
+			run.Count("c01:restorable_member_checked")
+			if !restoreFor[[2]uint64{sid, rid}] {
+				j.fail("C01", "no_silent_stall", "restorable-member-not-restored", fmt.Sprintf("shard %d: failed member %d is on a live NodeHost that lists its log, the shard is handled by the restore pass (healthy %d, restorable %d, waiting %d, quorum %d), but the round has no restore request for it", sid, rid, len(k.ok), len(restorable), len(k.waiting), quorum))
+				j.fail("C12", "restore_complete", "restorable-member-not-restored", fmt.Sprintf("shard %d: no restore request for the restorable member %d", sid, rid))
+			}
 		}
 	}
 	// kill requests are exactly the recorded stray replicas
